@@ -1105,14 +1105,33 @@ def any_eq(I_, item, elems, st, ctx, k, node):
 # attribute access
 # ----------------------------------------------------------------------
 
+def slist_attr(st, ref, path, idx):
+  """value of the tracked attribute `path` of element idx of a symbolic list, or None if not tracked"""
+  o = st.obj(ref)
+  arr = o.data["attrs"].get(path)
+  if arr is None:
+    return None
+  v = z3.Select(arr, zint(idx))
+  return concretize(v)
+
+
 def getattr_value(I_, obj, name, st, ctx, k, node=None):
   if isinstance(obj, Union):
     return I_.split(obj, st, lambda st2, o: getattr_value(I_, o, name, st2, ctx, k, node))
+  if isinstance(obj, SElem):
+    path = ".".join(obj.path + (name,))
+    v = slist_attr(st, obj.ref, path, obj.idx)
+    if v is not None:
+      return k(st, v)
+    o = st.obj(obj.ref)
+    if any(p_.startswith(path + ".") or p_.startswith(path + "(") for p_ in o.data["attrs"]):
+      return k(st, SElem(obj.ref, obj.idx, obj.path + (name,)))
+    raise Unsupported("attribute %s of an abstract list element is not tracked by the contract" % path)
   if isinstance(obj, Ref):
     o = st.obj(obj)
     if o.kind == "obj":
       return obj_getattr(I_, obj, o, o.cls, name, st, ctx, k, node)
-    if o.kind in ("list", "dict", "set"):
+    if o.kind in ("list", "dict", "set", "slist"):
       if name == "__class__":
         return k(st, o.cls)
       return k(st, BuiltinMethod(name, obj))
@@ -1370,6 +1389,8 @@ def getitem(I_, obj, idx, st, ctx, k, node=None):
   if isinstance(idx, Union):
     return I_.split(idx, st, lambda st2, i: getitem(I_, obj, i, st2, ctx, k, node))
   where = I_.where(ctx, node)
+  if isinstance(obj, z3.ArrayRef):
+    return k(st, concretize(z3.Select(obj, zint(idx))))
   if isinstance(obj, (SBytes, bytes, str)) and (isinstance(obj, SBytes) or not fully_concrete(idx)
                                                 or isinstance(idx, SliceVal) and not fully_concrete((idx.lo, idx.hi))):
     s = as_sbytes(obj)
@@ -1397,6 +1418,17 @@ def getitem(I_, obj, idx, st, ctx, k, node=None):
         return k(st2, SBytes([("byte", zint(v))], True))
       return k(st2, v)
     return I_.safety(st, ok, "safe.index@" + where, ExcVal(IndexError, ("index out of range",), where), ctx, cont)
+  if isinstance(obj, Ref) and st.obj(obj).kind == "slist":
+    o = st.obj(obj)
+    if not is_intlike(idx):
+      raise Unsupported("slice / non-int index of a symbolic list")
+    n = zint(o.data["len"])
+    zi = zint(idx)
+    ok = z3.And(zi >= -n, zi < n)
+    def cont_sl(st2):
+      j = concretize(z3.If(zi < 0, zi + n, zi)) if not st2.entails(zi >= 0) else idx
+      return k(st2, SElem(obj, j))
+    return I_.safety(st, ok, "safe.index@" + where, ExcVal(IndexError, ("list index out of range",), where), ctx, cont_sl)
   if isinstance(obj, Ref):
     o = st.obj(obj)
     if o.kind == "list":
@@ -1705,6 +1737,14 @@ def mapping_items(I_, v, st, ctx, k, node):
 def call_value(I_, f, args, kws, st, ctx, k, node=None):
   if isinstance(f, Union):
     return I_.split(f, st, lambda st2, g: call_value(I_, g, args, kws, st2, ctx, k, node))
+  if isinstance(f, SElem):
+    # method of an abstract list element: its result is the tracked function of the element (the contract
+    # of the unit states under which fixed other arguments this holds)
+    path = ".".join(f.path) + "()"
+    v = slist_attr(st, f.ref, path, f.idx)
+    if v is None:
+      raise Unsupported("method %s of an abstract list element is not tracked by the contract" % path)
+    return k(st, v)
   # contract / policy hook
   spec = I_.call_spec_for(f, st) if hasattr(I_, "call_spec_for") else None
   if spec is not None:
@@ -1720,6 +1760,9 @@ def call_value(I_, f, args, kws, st, ctx, k, node=None):
     from .methods import call_method
     return call_method(I_, f.recv, f.name, args, kws, st, ctx, k, node)
   if isinstance(f, types.FunctionType):
+    from .builtins_model import _TABLE as _BT, call_builtin as _cb
+    if f in _BT:
+      return _cb(I_, f, args, kws, st, ctx, k, node)
     if I_.is_repo_function(f) or getattr(f, "__module__", "").startswith("contracts") \
        or getattr(f, "__module__", "").startswith("spec"):
       return I_.call_closure(I_.closure_of(f), args, kws, st, ctx, k, node)
@@ -1730,6 +1773,8 @@ def call_value(I_, f, args, kws, st, ctx, k, node=None):
         return I_.raise_exc(st, ctx, type(e), str(e), node)
     raise Unsupported("call of non-repository python function %s with symbolic arguments" % f.__qualname__)
   if isinstance(f, types.MethodType):
+    if getattr(f.__func__, "_pyvc_native", False):
+      return k(st, f.__func__(f.__self__, st, *args, **kws))
     return call_value(I_, f.__func__, [f.__self__] + list(args), kws, st, ctx, k, node)
   if isinstance(f, type):
     return instantiate(I_, f, args, kws, st, ctx, k, node)
